@@ -119,6 +119,43 @@ Theorem C13_vtt_only_percent : forall c lo out, vtt_convert_positioning c lo = O
 Proof. exact vtt_only_percent. Qed.
 Print Assumptions C13_vtt_only_percent.
 
+(* ---- the traversal of each writer, level by level, and refusal as an equivalence ----------------------------------- *)
+(* DFXPWriter (repaired): set level untouched; language level as_percentage_of only; caption and node level through
+   _relativize_and_fit_to_screen; structure and node kinds kept *)
+Theorem C13_dfxp_transform_levels : forall c s s', dfxp_transform c s = Ok s' ->
+  ns_layout s' = ns_layout s
+  /\ Forall2 (fun lg lg' => rel_only c (nl_layout lg) = Ok (nl_layout lg') /\ Forall2 (cap_step c) (nl_caps lg) (nl_caps lg'))
+             (ns_langs s) (ns_langs s').
+Proof. exact dfxp_transform_levels. Qed.
+Print Assumptions C13_dfxp_transform_levels.
+
+Theorem C13_sami_transform_levels : forall c s s', sami_transform c s = Ok s' ->
+  raf c (ns_layout s) = Ok (ns_layout s')
+  /\ Forall2 (fun lg lg' => raf c (nl_layout lg) = Ok (nl_layout lg') /\ Forall2 (cap_step c) (nl_caps lg) (nl_caps lg'))
+             (ns_langs s) (ns_langs s').
+Proof. exact sami_transform_levels. Qed.
+Print Assumptions C13_sami_transform_levels.
+
+(* with relativization on the writer refuses (RelativizationError, by C13_dfxp_refuses_with_relativization_error)
+   EXACTLY when some layout it positions with - language, caption or node level (SAMI: also the set level) - has an
+   absolute length on an axis whose video dimension is missing *)
+Theorem C13_dfxp_refused_iff : forall c s, w_rel c = true ->
+  ((exists e, dfxp_transform c s = Err e) <-> existsb (opt_needs c) (written_layouts s) = true).
+Proof. exact dfxp_refused_iff. Qed.
+Print Assumptions C13_dfxp_refused_iff.
+
+Theorem C13_sami_refused_iff : forall c s, w_rel c = true ->
+  ((exists e, sami_transform c s = Err e) <-> existsb (opt_needs c) (ns_layout s :: written_layouts s) = true).
+Proof. exact sami_refused_iff. Qed.
+Print Assumptions C13_sami_refused_iff.
+
+(* after `fix: fit_to_screen gave a negative extent ...`: a fitted extent is never negative, whatever the origin *)
+Theorem C13_fit_extent_never_negative : forall l r e', layout_fit l = Ok r -> l_origin l <> None -> l_extent r = Some e' ->
+  match l_extent l with Some e => (0 <= s_val (st_h e))%Q /\ (0 <= s_val (st_v e))%Q | None => True end ->
+  (0 <= s_val (st_h e'))%Q /\ (0 <= s_val (st_v e'))%Q.
+Proof. exact fit_extent_never_negative. Qed.
+Print Assumptions C13_fit_extent_never_negative.
+
 (* ---- non-vacuity ---------------------------------------------------------------------------------------------- *)
 Example C13_ex_units :
   axis_call (mkSize (64 # 1) PX) true (Some (640 # 1)) = Ok (mkSize (10 # 1) PCT)
@@ -141,3 +178,8 @@ Example C13_ex_dfxp_fixed :
   = Ok (mkNset None [mkNlang (Some (mkLayout (Some (mkPoint (mkSize (10 # 1) PCT) (mkSize (10 # 1) PCT))) None None None None))
                              [mkNcap None [mkNode 1 None]]]).
 Proof. exact dfxp_lang_level_px_fixed. Qed.
+Example C13_ex_fit_outside_safe_area :
+  let s v := mkSize v PCT in
+  layout_fit (mkLayout (Some (mkPoint (s (95 # 1)) (s (10 # 1)))) None None None None)
+  = Ok (mkLayout (Some (mkPoint (s (95 # 1)) (s (10 # 1)))) (Some (mkStretch (s (0 # 1)) (s (85 # 1)))) None None None).
+Proof. vm_compute. reflexivity. Qed.
